@@ -1,0 +1,23 @@
+//go:build verif
+
+package sse
+
+// VerifHook, when set, is called at the critical steps of the handler (build tag verif only):
+//
+//	"register"   under m, after the client's channel was added to requests (id = client id)
+//	"exit"       in the handler's deferred function, before m is taken (may block: exit gate)
+//	"unregister" under m, after the client was removed from requests, before its channel is closed
+//	"send"       under m, at the start of Send (data = event data)
+//	"spawn"      under m, in Send, once per delivery goroutine about to be started
+//	"gate"       inside the delivery goroutine, before the send on the client's channel (may block)
+//	"dend"       inside the delivery goroutine, after the send statement completed
+//
+// key identifies the client's event channel, so that Send (which only sees channels) can be related
+// to the id announced at "register".
+var VerifHook func(ev string, id int64, key any, data string)
+
+func verifEvent(ev string, id int64, key any, data string) {
+	if h := VerifHook; h != nil {
+		h(ev, id, key, data)
+	}
+}
